@@ -1,12 +1,19 @@
 (* DC06.v — dispatch entries of property C06 (line voxelisation).
-   args:  GetExtendedSpatialIdsOnLine [p1; p2; h; v],  GetSpatialIdsOnLine [p1; p2; zoom];  a point is a stored float triple
-          [lon; lat; alt] (exactly the fields of the object.Point handed to the function) or VNil for a nil pointer.
-   obs:   the returned ID list, wrapped in VE when an error was returned.
+   args:  GetExtendedSpatialIdsOnLine [p1; p2; h; v],  GetSpatialIdsOnLine [p1; p2; zoom],  LineSidVsExt [p1; p2; zoom];
+          a point is a stored float triple [lon; lat; alt] (exactly the fields of the object.Point handed to the function) or VNil
+          for a nil pointer.
+   obs:   the returned ID list, wrapped in VE when an error was returned (LineSidVsExt: the pair of both functions' results).
    corr = same error flag and, on success, the same ID set as the executable model Line.line_api run with Go's own
           math.Tan/Cos/Log answers;
-   prop = Line's boolean checker on the observed set (LineCheck.check_line);
-   class = retruncation_unstable_endpoint when the only failing part is connectivity and an end point changes its voxel when it
-          is stored again (SetLat is not idempotent: D14). *)
+   prop = LineCheck.check_line on the observed set with the STRICT latitude band (lemma judge_prop below);
+   classes (only when the model reproduces the output and only for the failing conjunct named):
+     retruncation_unstable_endpoint — an end point changes its row when it is stored again (SetLat is not idempotent: D14) and the
+          only failures are (i) connectivity, repaired by adding the re-stored end voxels, the end voxel being exactly one row
+          off, and/or (ii) voxels in the re-stored row of such an end point that only the SetLat band of the slab test accepts;
+     setlat_cut_row_shift — voxels (anywhere on the segment) that the slab test accepts only within the SetLat band 2^-33 degrees:
+          the recursion cuts every midpoint's latitude by up to 1e-10 degrees before taking its row;
+     skipped — the end voxels are more than max_span cells apart (cost guard; the entry itself recomputes the span).
+   Outside the judged domain (non-finite coordinates, |alt| > 2^25, |lon| > 180, |lat| > 85.0511287798): bad_case. *)
 From Coq Require Import ZArith String List Bool Floats QArith.
 From SID Require Import Base Str Ids Wire F64 ExactRef PointF Line LineCheck.
 Import ListNotations.
@@ -32,13 +39,10 @@ Open Scope string_scope.
                  | None => false end
     | _, _ => false
     end.
-  (* the documented domain of an end point (finite altitude within the grid's vertical extent) *)
+  (* the domain judged at run time: a narrowing of "all valid points" (NewPoint accepts every altitude; beyond 2^43 the code
+     does not terminate, see meta/C06.json). NaN fails every comparison. *)
   Definition l_in_domain (p : point) : bool :=
     (abs (plon p) <=? 180)%float && (abs (plat p) <=? c_latmax)%float && (abs (palt p) <=? pow2f 25)%float.
-
-  (* D14: storing the (already stored) end point again moves it into another voxel *)
-  Definition unstable_endpoint (tanf cosf logf : float -> float) (h v : Z) (p : point) : bool :=
-    negb (eid_eqb (vox_in_pt tanf cosf logf h v p) (vox_top_pt tanf cosf logf h v p)).
 
   (* observed strings -> extended IDs (spatial-ID form: z/f/x/y -> z/x/y/z/f first) *)
   Definition l_obs_eids (sid : bool) (o : list string) : option (list eid) :=
@@ -47,11 +51,63 @@ Open Scope string_scope.
     | Err => None
     end.
 
-  (* cost guard: the property's quantifier bounds segments to a few hundred voxels; a case whose end voxels are further apart
-     (only the harness's shrinker produces such cases, by moving a coordinate to 0) is not judged *)
+  (* cost guard: the property's quantifier bounds segments to a few hundred voxels. The column of an end point at longitude 180
+     (folded onto 0) counts as 2^h; the segment never wraps, so the distance is not taken modulo 2^h. *)
   Definition max_span : Z := 400.
-  Definition span_ok (a b : eid) : bool :=
-    (Z.min (Z.abs (ex b - ex a)) (2 ^ eh a - Z.abs (ex b - ex a)) <=? max_span)%Z && (Z.abs (ey b - ey a) <=? max_span)%Z && (Z.abs (ef b - ef a) <=? max_span)%Z.
+  Definition span_ok (xs xe : Z) (a b : eid) : bool :=
+    (Z.abs (xe - xs) <=? max_span)%Z && (Z.abs (ey b - ey a) <=? max_span)%Z && (Z.abs (ef b - ef a) <=? max_span)%Z.
+
+  (* the re-stored voxel is the stored voxel moved by exactly one row *)
+  Definition one_row_off (top inn : eid) : bool :=
+    (ex top =? ex inn)%Z && (ef top =? ef inn)%Z && (Z.abs (ey top - ey inn) =? 1)%Z.
+
+  (* verdict on a successful observed ID set. vs/ve: voxels of the stored end points; vis/vie: of the end points stored again *)
+  Definition classify (rowf : float -> option Z) (vs ve vis vie : eid) (folds : list eid) (g : segq) (h v : Z)
+             (o : list string) (ids : list eid) : string :=
+    let st := nodup_strings o && check_struct vs ve h v ids in
+    let tolerant := forallb (slab_voxel rowf tol_lat g h v) ids in
+    if negb (st && tolerant) then "-" else
+    let us := negb (eid_eqb vis vs) in
+    let ue := negb (eid_eqb vie ve) in
+    let cn := connected_from (adjFb folds) vs ids in
+    let ends_ok := (negb us || one_row_off vs vis) && (negb ue || one_row_off ve vie) in
+    let cn_excused := (us || ue) && ends_ok &&
+                      connected_from (adjFb folds) vis (nodupb eid_eqb (vis :: vie :: ids)) in
+    if negb (cn || cn_excused) then "-" else
+    let off := filter (fun i => negb (slab_voxel rowf tol_lat0 g h v i)) ids in
+    let in_restored_row i := (us && (ey i =? ey vis)%Z) || (ue && (ey i =? ey vie)%Z) in
+    if forallb in_restored_row off then
+      (if negb cn || negb (match off with [] => true | _ => false end) then "retruncation_unstable_endpoint" else "-")
+    else "setlat_cut_row_shift".
+  Definition judge (rowf : float -> option Z) (vs ve vis vie : eid) (folds : list eid) (g : segq) (h v : Z)
+             (o : list string) (ids : list eid) : bool * string :=
+    if nodup_strings o && check_line vs ve folds (slab_voxel rowf tol_lat0 g h v) h v ids then (true, "-")
+    else (false, classify rowf vs ve vis vie folds g h v o ids).
+  (* the dispatcher's prop IS the proved checker (plus: no two equal ID strings) *)
+  Lemma judge_prop rowf vs ve vis vie folds g h v o ids :
+    fst (judge rowf vs ve vis vie folds g h v o ids) =
+    nodup_strings o && check_line vs ve folds (slab_voxel rowf tol_lat0 g h v) h v ids.
+  Proof. unfold judge. destruct (nodup_strings o && check_line vs ve folds (slab_voxel rowf tol_lat0 g h v) h v ids); reflexivity. Qed.
+
+  Inductive pre := PErr | PBad | PSkip | PRun (s e : point).
+  (* common front end: arguments, expected errors, domain, span *)
+  Definition l_pre (tanf cosf logf : float -> float) (p1 p2 : val) (h v : Z) : pre :=
+    match l_as_point p1, l_as_point p2 with
+    | Some o1, Some o2 =>
+        if negb (check_zoom h && check_zoom v) then PErr else
+        match o1, o2 with
+        | Some s, Some e =>
+            if negb (l_in_domain s && l_in_domain e) then PBad else
+            let vs := vox_top_pt tanf cosf logf h v s in
+            let ve := vox_top_pt tanf cosf logf h v e in
+            let xs := if (plon s =? 180)%float then (2 ^ h)%Z else ex vs in
+            let xe := if (plon e =? 180)%float then (2 ^ h)%Z else ex ve in
+            if span_ok xs xe vs ve then PRun s e else PSkip
+        | _, _ => PErr
+        end
+    | _, _ => PBad
+    end.
+  Definition is_marker (obs : val) : bool := match obs with VNil => true | _ => false end.
 
   Definition d_line (oracle : oracle_t) (sid : bool) (args : list val) (obs : val) : verdict :=
     let zooms := match args with
@@ -60,44 +116,58 @@ Open Scope string_scope.
                  | _ => None end in
     match args, zooms with
     | p1 :: p2 :: _, Some (h, v) =>
-        match l_as_point p1, l_as_point p2 with
-        | Some o1, Some o2 =>
-            let has_nil := match o1, o2 with Some _, Some _ => false | _, _ => true end in
-            let s := match o1 with Some p => p | None => zero_point end in
-            let e := match o2 with Some p => p | None => zero_point end in
-            let tanf := l_ofun oracle "tan" in let cosf := l_ofun oracle "cos" in let logf := l_ofun oracle "log" in
-            if negb has_nil && check_zoom h && check_zoom v &&
-               negb (span_ok (vox_top_pt tanf cosf logf h v s) (vox_top_pt tanf cosf logf h v e)) then bad_case else
-            let '(m0, hwm) := line_api_run tanf cosf logf has_nil s e h v in
+        let tanf := l_ofun oracle "tan" in let cosf := l_ofun oracle "cos" in let logf := l_ofun oracle "log" in
+        match l_pre tanf cosf logf p1 p2 h v with
+        | PBad => bad_case
+        | PSkip => mkv true true "skipped" VNil
+        | PErr => mkv (is_err obs) (is_err obs) "-" (VL [l_res Err; VZ 0; VB true])
+        | PRun s e =>
+            if is_marker obs then bad_case else
+            let '(m0, hwm, flag) := line_api_run tanf cosf logf false s e h v in
             let m := if sid then match m0 with Ok ids => eids_to_sids ids | Err => Err end else m0 in
             let corr := l_corr m obs in
-            let expect_err := has_nil || negb (check_zoom h && check_zoom v) in
             let '(prop, cls) :=
-              if expect_err then (is_err obs, "-")
-              else if negb (l_in_domain s && l_in_domain e) then (true, "-")   (* outside the documented domain nothing is claimed *)
-              else match (if is_err obs then None else as_LS obs), seg_of s e with
-                   | Some o, Some g =>
-                       match l_obs_eids sid o with
-                       | Some ids =>
-                           let vs := vox_top_pt tanf cosf logf h v s in
-                           let ve := vox_top_pt tanf cosf logf h v e in
-                           let st := nodup_strings o && check_struct vs ve h v ids &&
-                                     forallb (slab_voxel (fun x => y_f tanf cosf logf x h) g h v) ids in
-                           let folds := ((if (plon s =? 180)%float then [vs] else []) ++ (if (plon e =? 180)%float then [ve] else []))%list in
-                           let cn := connected_from (adjFb folds) vs ids in
-                           if st && cn then (true, "-")
-                           else if st && (unstable_endpoint tanf cosf logf h v s || unstable_endpoint tanf cosf logf h v e)
-                                then (false, "retruncation_unstable_endpoint")
-                                else (false, "-")
-                       | None => (false, "-")
-                       end
-                   | _, _ => (false, "-")
-                   end in
-            mkv corr prop (if corr then cls else "-") (VL [l_res m; VZ hwm])
-        | _, _ => bad_case
+              match (if is_err obs then None else as_LS obs), seg_of s e with
+              | Some o, Some g =>
+                  match l_obs_eids sid o with
+                  | Some ids =>
+                      let vs := vox_top_pt tanf cosf logf h v s in
+                      let ve := vox_top_pt tanf cosf logf h v e in
+                      judge (fun x => y_f tanf cosf logf x h) vs ve
+                            (vox_in_pt tanf cosf logf h v s) (vox_in_pt tanf cosf logf h v e)
+                            (folds_pt tanf cosf logf h v s e) g h v o ids
+                  | None => (false, "-")
+                  end
+              | _, _ => (false, "-")
+              end in
+            mkv corr prop (if corr then cls else "-") (VL [l_res m; VZ hwm; VB flag])
+        end
+    | _, _ => bad_case
+    end.
+
+  (* the two exported functions on the same input: obs = [GetSpatialIdsOnLine(p1,p2,z); GetExtendedSpatialIdsOnLine(p1,p2,z,z)].
+     prop: same error flag, and the spatial-ID list is the extended list converted (as sets). *)
+  Definition d_sid_vs_ext (oracle : oracle_t) (args : list val) (obs : val) : verdict :=
+    match args, obs with
+    | [p1; p2; VZ z], VL [o1; o2] =>
+        let tanf := l_ofun oracle "tan" in let cosf := l_ofun oracle "cos" in let logf := l_ofun oracle "log" in
+        match l_pre tanf cosf logf p1 p2 z z with
+        | PBad => bad_case
+        | PSkip => mkv true true "skipped" VNil
+        | PErr => mkv (is_err o1 && is_err o2) (is_err o1 && is_err o2) "-" VNil
+        | PRun s e =>
+            if is_marker o1 || is_marker o2 then bad_case else
+            let me := line_api tanf cosf logf false s e z z in
+            let ms := match me with Ok ids => eids_to_sids ids | Err => Err end in
+            let prop := match (if is_err o1 then None else as_LS o1), (if is_err o2 then None else as_LS o2) with
+                        | Some a, Some b => match sids_to_eids a with Ok a' => same_set a' b | Err => false end
+                        | _, _ => false
+                        end in
+            mkv (l_corr ms o1 && l_corr me o2) prop "-" (VL [l_res ms; l_res me])
         end
     | _, _ => bad_case
     end.
 
 Definition table_C06 : table :=
-  [("GetExtendedSpatialIdsOnLine", fun o => d_line o false); ("GetSpatialIdsOnLine", fun o => d_line o true)].
+  [("GetExtendedSpatialIdsOnLine", fun o => d_line o false); ("GetSpatialIdsOnLine", fun o => d_line o true);
+   ("LineSidVsExt", d_sid_vs_ext)].
